@@ -432,7 +432,7 @@ pub fn expected_constraints(gp: &GenProblem) -> Vec<Constraint> {
 pub fn mutate(rng: &mut Rng, gp: &GenProblem) -> (String, &'static str) {
     let base = text_of(gp, rng);
     let lines: Vec<&str> = base.split('\n').collect();
-    match rng.below(14) {
+    match rng.below(15) {
         0 => {
             // delete a line
             let mut l = lines.clone();
@@ -532,6 +532,33 @@ pub fn mutate(rng: &mut Rng, gp: &GenProblem) -> (String, &'static str) {
             } else {
                 (base, "none")
             }
+        }
+        13 => {
+            // a label that merely *extends* (or is a prefix of) a declared circle / arc label and is
+            // itself undeclared: `radius(c2, 3)` with only `circle c` declared, `is_arc(ab)` with only
+            // `arc a`, `c7.center` ... must be rejected like any other undeclared label
+            let owners: Vec<&String> = gp.circles.iter().chain(gp.arcs.iter()).collect();
+            if owners.is_empty() {
+                return (base, "none");
+            }
+            let o = (*rng.pick(&owners)).clone();
+            let all: Vec<&String> = gp.points.iter().chain(gp.circles.iter()).chain(gp.arcs.iter()).collect();
+            let cand = if rng.chance(1, 4) && o.len() > 1 { o[..o.len() - 1].to_string() } else { format!("{o}{}", rng.pick(&["2", "0", "b", "x", "10"])) };
+            if all.iter().any(|l| **l == cand) {
+                return (base, "none");
+            }
+            let is_circle = gp.circles.contains(&o);
+            let l = if is_circle {
+                (*rng.pick(&["radius(@, 3)", "tangent(@, @, @)", "@.center.x = 1", "@.center = (1, 2)"])).replace('@', &cand)
+            } else {
+                (*rng.pick(&["is_arc(@)", "arc_radius(@, 2)", "arc_length(@, 2)", "@.center.y = 1", "@.center = (1, 2)"])).replace('@', &cand)
+            };
+            let l = if l.starts_with("tangent(") {
+                // tangent(p, q, circle): use the near-miss only as the circle
+                let p = gp.points.first().cloned().unwrap_or_else(|| "nosuch".into());
+                format!("tangent({p}, {p}, {cand})")
+            } else { l };
+            (base.replacen("# constraints\n", &format!("# constraints\n{l}\n"), 1), "undeclared-reference")
         }
         12 => {
             let n = rng.range(0, 60);
